@@ -581,6 +581,18 @@ class ResourceNonDelay(ResourceConstraint):
         for start_var, end_var in self.resource._busy_intervals.values():
             starts.append(start_var)
             ends.append(end_var)
+
+        if isinstance(self.resource, CumulativeWorker):
+            resource_assigned = any(
+                worker._busy_intervals for worker in self.resource._cumulative_workers
+            )
+        else:
+            resource_assigned = len(starts) > 0
+        if not resource_assigned:
+            raise AssertionError(
+                "The resource is not assigned to any task. Please first assign the resource to one or more tasks, and then add the ResourceNonDelay constraint."
+            )
+
         # sort both lists
         sorted_starts, c1 = sort_no_duplicates(starts)
         sorted_ends, c2 = sort_no_duplicates(ends)
